@@ -204,6 +204,33 @@ theorem faithful_or_rejected : faithful_or_rejected_statement :=
     ⟨fun ts eqv mo s src hsound hinv => faithful_or_rejected_plain ts isEmpty parse eqv mo s src hsound hinv,
      fun sc => faithful_or_rejected_hotspot sc isEmpty parse⟩
 
+/-- `Base.Handle` with one registered handler is that handler's `Handle`: same new state, same `nil`/`err` — whatever
+    the payload was delivered *in* (a fresh slice, a reused buffer): the model of `Base` has no memory of payloads, so all
+    the theorems about `deliver` are theorems about deliveries through a `datasource.Base`. -/
+theorem base_handle_single (conv : B → Conv (WireList R)) (eqv : Option (WireList R) → Option (WireList R) → Bool)
+    (mo : Module R) (s : Handler (WireList R) × Mgr R) (src : B) :
+    baseDeliver conv eqv mo [s] src = ([(deliver conv eqv mo s src).1], (deliver conv eqv mo s src).2) := by
+  rcases deliver_cases conv eqv mo s src with ⟨_, hr⟩ | ⟨_, hr⟩ | ⟨v, _, _, hr⟩ | ⟨v, _, _, hr⟩ <;>
+    simp [baseDeliver, hr]
+
+/-- with several handlers every one of them is served, and `err` is returned iff one of them returned `err` -/
+theorem base_handle_all (conv : B → Conv (WireList R)) (eqv : Option (WireList R) → Option (WireList R) → Bool)
+    (mo : Module R) (ss : List (Handler (WireList R) × Mgr R)) (src : B) :
+    (baseDeliver conv eqv mo ss src).1 = ss.map (fun s => (deliver conv eqv mo s src).1) ∧
+    ((baseDeliver conv eqv mo ss src).2 = .ret .err ↔ ∃ s ∈ ss, (deliver conv eqv mo s src).2 = .ret .err) := by
+  constructor
+  · simp [baseDeliver, List.map_map, Function.comp_def]
+  · unfold baseDeliver
+    by_cases h : ((ss.map fun s => deliver conv eqv mo s src).any fun r => r.2 == Outcome.ret Ret.err) = true
+    · simp only [h, if_true, true_iff]
+      simpa [List.any_eq_true] using h
+    · simp only [h]
+      simp only [List.any_eq_true, not_exists, not_and] at h
+      constructor
+      · intro hc; cases hc
+      · rintro ⟨s, hs, he⟩
+        exact absurd (by simpa using he) (h _ (List.mem_map_of_mem hs))
+
 /-! ## 3. Repaired finding `null-element-swallowed` (hotspot path, fix 2a360c1) -/
 
 /-- before 2a360c1 the hotspot converter panicked on a `null` element; `Handle` then returned `nil` although nothing
